@@ -121,9 +121,34 @@ impl<W: io::Write> TriplesFormatter for CheckedFormatter<W> {
                 )));
             }
         }
+        if let Some(name) = triple.predicate.iri.strip_prefix(RDF_NS) {
+            if NOT_PROPERTY_ELEMENT.contains(&name) {
+                return Err(unsupported(format!("predicate {}", triple.predicate)));
+            }
+        }
         self.0.format(triple)
     }
 }
+
+const RDF_NS: &str = "http://www.w3.org/1999/02/22-rdf-syntax-ns#";
+
+/// The names in the RDF namespace which,
+/// used as a [property element](https://www.w3.org/TR/rdf-syntax-grammar/#propertyElementURIs),
+/// are either forbidden or (for `rdf:li`) do not stand for themselves.
+const NOT_PROPERTY_ELEMENT: [&str; 12] = [
+    "RDF",
+    "ID",
+    "about",
+    "parseType",
+    "resource",
+    "nodeID",
+    "datatype",
+    "Description",
+    "aboutEach",
+    "aboutEachPrefix",
+    "bagID",
+    "li",
+];
 
 fn unsupported(what: String) -> io::Error {
     io::Error::new(
